@@ -58,6 +58,20 @@ def generate(rng, tier, idx):
     return sc
 
 
+def _curve_at(sg, lam):
+    """value of a drawn curve at wavelength lam: the vertex there, or (the plot has log axes) the log-log interpolant"""
+    x, y = sg[:, 0], sg[:, 1]
+    kk = int(np.argmin(np.abs(x - lam)))
+    if abs(x[kk] - lam) <= 1e-6 * lam:
+        return float(y[kk])
+    order = np.argsort(x)
+    xs, ys = x[order], y[order]
+    if lam < xs[0] or lam > xs[-1]:
+        return None
+    with np.errstate(all='ignore'):
+        return float(10 ** np.interp(np.log10(lam), np.log10(xs), np.log10(ys)))
+
+
 def execute(sc):
     out = Outcome()
     sim = env.Sim('c17')
@@ -198,15 +212,15 @@ def _execute(sc, sim, out):
                 for sg in block:
                     ok = True
                     for j in js:
-                        kk = int(np.argmin(np.abs(sg[:, 0] - fw[j])))
-                        if abs(sg[kk, 0] - fw[j]) > 1e-6 * fw[j]:
-                            ok, why = False, 'curve has no vertex at the fitted wavelength %.6g um' % fw[j]
+                        y = _curve_at(sg, fw[j])
+                        if y is None:
+                            ok, why = False, 'curve does not cover the fitted wavelength %.6g um' % fw[j]
                             break
-                        dev = abs(sg[kk, 1] / pred[j] - 1)
+                        dev = abs(y / pred[j] - 1)
                         if not dev <= 1e-3:
                             ok = False
                             why = 'aperture %s: at %.6g um the curve is at %.6g, the stored prediction of fit %d (model %s) is %.6g (rel. dev. %.3g)' % (
-                                'interp' if a is None else '%.4g"' % a, fw[j], sg[kk, 1], fit_i + 1, str(info.model_name[fit_i]).strip(), pred[j], dev)
+                                'interp' if a is None else '%.4g"' % a, fw[j], y, fit_i + 1, str(info.model_name[fit_i]).strip(), pred[j], dev)
                             break
                     if ok:
                         why = None
@@ -223,8 +237,8 @@ def _execute(sc, sim, out):
                 for sg in block:
                     d_ = 0.0
                     for j in [j for j in range(nf) if a is None or theta[j] == a]:
-                        kk = int(np.argmin(np.abs(sg[:, 0] - fw[j])))
-                        d_ = max(d_, abs(sg[kk, 1] / pred[j] - 1))
+                        y = _curve_at(sg, fw[j])
+                        d_ = max(d_, abs(y / pred[j] - 1) if y is not None else np.inf)
                     best = min(best, d_)
                 m_ = max(m_, best)
             return m_
